@@ -611,7 +611,7 @@ func TestVerifC13(t *testing.T) {
 			ID: "C13", Engine: "reverts",
 			Gen: c13Gen,
 			Run: func(cs c13Case) (verifkit.Outcome, error) { return c13RunCase(c, cs) },
-			Floors: map[string]float64{"accepted": 0.6, "accepted-notblocked": 0.3, "accepted-blocking": 0.3, "nonadjacent": 0.15, "second-revert": 0.3, "forward": 0.10, "blocking-revert-from-marked": 0.04,
+			Floors: map[string]float64{"accepted": 0.6, "accepted-notblocked": 0.3, "accepted-blocking": 0.3, "nonadjacent": 0.15, "second-revert": 0.3, "forward": 0.10, "blocking-revert-from-marked": 0.02,
 				"refused-current": 0.08, "refused-not-kept": 0.08, "refused-disabled": 0.05, "refused-no-previous": 0.03,
 				"offer-blocked": 0.2, "offer-taken": 0.2, "offer-taken-notblocked-revision": 0.1},
 			NonTrivialFloor: 0.3,
